@@ -30,7 +30,8 @@ COMPONENTS = {
     "real": ["canopen.lss.LssMaster (all public services)", "canopen.Network (subscription of 0x7E4, send_message)"],
     "stub": ["CAN backend (SimBus)", "can.Notifier", "time/queue inside canopen.lss (virtual clock, SimQueue)", "LSS slave (RefLssSlave reference model)"],
 }
-PROBES = ["scan-found", "scan-no-slave", "bit31-set", "inquire", "configure-ok", "configure-error", "wrong-cs", "silence", "selective", "store"]
+PROBES = ["scan-found", "scan-no-slave", "bit31-set", "inquire", "configure-ok", "configure-error", "wrong-cs", "silence", "late-reply", "selective", "store",
+          "unsolicited-reply-before-scan"]
 
 
 def jobs(tier, seed):
@@ -130,6 +131,10 @@ def _service(ctx, w, identity, svc=None, forced_arg=None, forced_mode=None):
             mode = ("wrong-cs", (0x11, 0x13, 0x17, 0x5E, 0x5A, 0x44, 0x4F, 0x00)[ctx.choice(8, "wcs")])
         elif k == 3:
             mode = ("silent",)
+        elif k == 4 and ctx.choice(2, "late") == 1:
+            # the reply arrives after the master's time-out: the call fails like
+            # silence, the stale reply must not be taken for the next answer
+            mode = ("late", int(0.5 * SEC) + (5 + ctx.choice(200, "lateby")) * MS)
     if mode is not None and mode[0] == "error" and svc.startswith("inquire"):
         mode = None         # inquire replies carry no error code
     sl.reply_mode = mode
@@ -178,14 +183,17 @@ def _service(ctx, w, identity, svc=None, forced_arg=None, forced_mode=None):
         ctx.violation("C18/request-field/configure-bit-timing", "%s: request %s" % (what, last.hex()))
     # what must happen
     natural_err = svc == "configure-node-id" and not (1 <= arg <= 127 or arg == 0xFF)
-    must_fail = natural_err or (mode is not None and (mode[0] in ("error", "silent") or (mode[0] == "wrong-cs" and mode[1] != req_cs)))
+    must_fail = natural_err or (mode is not None and (mode[0] in ("error", "silent", "late") or (mode[0] == "wrong-cs" and mode[1] != req_cs)))
     if must_fail:
         if not isinstance(exc, LssError):
             ctx.violation("C18/error-not-raised/%s" % (mode[0] if mode else "inadmissible-node-id"),
                           "%s: the call %s instead of raising LssError" % (what, "returned %r" % (res,) if exc is None else "raised %r" % (exc,)))
         if mode is not None and mode[0] == "silent" and took > int(0.5 * SEC) + 300 * MS:
             ctx.violation("C18/silence-timeout-late", "%s raised after %.3f s" % (what, took / SEC))
-        ctx.probe({"error": "configure-error", "wrong-cs": "wrong-cs", "silent": "silence"}.get(mode[0] if mode else "error"))
+        ctx.probe({"error": "configure-error", "wrong-cs": "wrong-cs", "silent": "silence", "late": "late-reply"}.get(mode[0] if mode else "error"))
+        if mode is not None and mode[0] == "late":
+            # let the late reply arrive (it is then a stale frame in the master's queue)
+            ctx.run_for(mode[1] - int(0.5 * SEC) + 10 * MS)
     else:
         if exc is not None:
             ctx.violation("C18/service-raised/%s@%s" % (type(exc).__name__, site(exc)), "%s raised %r" % (what, exc))
@@ -233,6 +241,12 @@ def scenario(ctx):
     # seeded history
     how = ctx.choice(3, "enter")
     if how == 0:
+        if ctx.choice(3, "identify-first") == 0:
+            # the slave answers 0x50 to "identify non-configured remote slave"; the master does not
+            # collect that answer, it must not disturb the scan that follows
+            _, exc = call(w.lss.send_identify_non_configured_remote_slave)
+            ctx.run_for(10 * MS)
+            ctx.probe("unsolicited-reply-before-scan")
         _scan(ctx, w, identity, 4)
     elif how == 1:
         res, exc = call(w.lss.send_switch_state_selective, *identity)
